@@ -497,6 +497,7 @@ def main(argv=None):
     ap.add_argument("--nhash", type=int, default=0)
     ap.add_argument("--hashidx", type=int, default=0)
     ap.add_argument("--sub")
+    ap.add_argument("--gen")
     ap.add_argument("--exec")
     ap.add_argument("--minimise")
     ap.add_argument("--min-budget", type=int, default=400)
@@ -509,6 +510,11 @@ def main(argv=None):
         if a.sub:
             a.prop = a.sub
             return sub_main(a)
+        if a.gen:
+            prop = load_prop(a.gen)
+            ds = [digest(scenario_for(prop, a.seed, i, a.tier)) for i in range(a.runs or 40)]
+            sys.stdout.write("\n@@RESULT@@" + json.dumps(ds) + "\n")
+            return 0
         if a.exec:
             return exec_scenario_file(a)
         if a.minimise:
